@@ -148,11 +148,18 @@ def assemble(lines, budget=5.0, want_program=False, raw=False):
     return out
 
 
+_HANGS = {"confirmed": 0}
+
+
 def assemble_confirm(lines, budget=5.0, raw=False):
     """assemble(); a HANG verdict is confirmed by a second, 4x longer, run (load cannot fake it)."""
-    out = assemble(lines, budget, raw=raw)
+    out = assemble(lines, min(budget, 1.5) if _HANGS["confirmed"] >= 3 else budget, raw=raw)
     if out["kind"] == "HANG":
-        out = assemble(lines, budget * 4, raw=raw)
+        # once this worker has seen three confirmed hangs the tree under test evidently can hang: later timeouts are
+        # confirmed with a shorter second run so that a hanging mutant does not cost hours (a verdict still needs two timeouts)
+        out = assemble(lines, budget * 4 if _HANGS["confirmed"] < 3 else 3.0, raw=raw)
+        if out["kind"] == "HANG":
+            _HANGS["confirmed"] += 1
     return out
 
 
